@@ -11,8 +11,12 @@ import (
 	"strings"
 	"time"
 
+	"github.com/cosmos/gogoproto/proto"
+
+	"github.com/osmosis-labs/osmosis/osmoutils/accum"
 	lockuptypes "github.com/osmosis-labs/osmosis/v31/x/lockup/types"
 
+	"verif/harness/simcore"
 	"verif/harness/simnet"
 )
 
@@ -118,6 +122,19 @@ func (w *world) compareExports(oracle, phase string) {
 // with offsets (Query/SupplyOf).
 func (w *world) importQueries() {
 	ca, cd := w.A.QueryCtx(), w.D.PendingCtx()
+	for i, acc := range w.g.Accts {
+		pa, oka := w.A.App.ValidatorSetPreferenceKeeper.GetValidatorSetPreference(ca, acc.String())
+		pd, okd := w.D.App.ValidatorSetPreferenceKeeper.GetValidatorSetPreference(cd, acc.String())
+		if oka != okd || fmt.Sprint(pa.Preferences) != fmt.Sprint(pd.Preferences) {
+			w.report("import-query", "valsetpref/validator-set-preference", "height %d: validator-set preference of account %d: A reports %v (set=%v); the replica initialised from A's export reports %v (set=%v)", w.h, i, pa.Preferences, oka, pd.Preferences, okd)
+			if w.dLive {
+				// the preference decides how MsgDelegateToValidatorSet / MsgUndelegateFromValidatorSet execute
+				w.dLive = false
+				w.run.Count("info/fork-suffix-not-compared-after-unfaithful-import")
+			}
+			break
+		}
+	}
 	for _, d := range baseDenoms[1:] {
 		ia, ea := w.A.App.ProtoRevKeeper.GetPoolForDenomPairNoOrder(ca, "uosmo", d)
 		id, ed := w.D.App.ProtoRevKeeper.GetPoolForDenomPairNoOrder(cd, "uosmo", d)
@@ -235,13 +252,89 @@ func (w *world) lockupAccumulation() {
 	}
 }
 
-// kvDiff counts (information only) the stores whose raw content differs
-// between A and D one block after the import.
+// rawStateAllowed lists the classes of raw store keys (<store>/<key class>/<only-A|value>) that may differ
+// between a node and a node initialised from its export one block later, each with the reason. Keys that
+// exist only on the imported node are not judged at all (an import may write defaults explicitly).
+var rawStateAllowed = map[string]string{
+	"staking/0x50/only-A":  "x/staking historical info (block headers of the last N heights): not part of genesis by design",
+	"staking/0x50/value":   "x/staking historical info: not part of genesis by design",
+	"staking/0x37/only-A":  "x/staking unbonding-id counter and index: same cause as the known finding fork-export/staking/...unbonding_id",
+	"staking/0x38/only-A":  "x/staking unbonding-id index: same cause as the known finding fork-export/staking/...unbonding_id",
+	"staking/0x39/only-A":  "x/staking unbonding-id index: same cause as the known finding fork-export/staking/...unbonding_id",
+	"slashing/0x10/only-A": "x/slashing missed-block bitmap chunks that are all zero are not exported (no missed block recorded in them)",
+	"wasm/0x08/only-A":     "x/wasm TX counter of the current block: transient bookkeeping, not part of genesis by design",
+	"bank/0x58/only-A":     "bank supply offsets: reported by the import-query/bank/supply-of oracle (known finding)",
+	"bank/0x58/value":      "bank supply offsets: reported by the import-query/bank/supply-of oracle (known finding)",
+	"epochs/0x01/value":    "x/epochs current_epoch_start_height is set to the import height: compared field by field by the export oracles (known finding when superfluid is in use)",
+	"incentives/0x04/only-A": "x/incentives gauge references by status and start time: upcoming gauges whose start time has passed are filed as active on import (known finding export-roundtrip/incentives/gauges<order>)",
+	"incentives/0x03/only-A": "x/incentives does not export finished gauges (only not-finished ones are part of its genesis)",
+	"twap/0x01/only-A":     "x/twap pruning-in-progress marker: an interrupted pruning pass resumes at the next prune epoch after an import; answers inside the window do not depend on it",
+	"twap/0x01/value":      "x/twap pruning-in-progress marker (see above)",
+	"lockup/0x20-empty-name/only-A": "lockup accumulation tree opened under the empty denomination by AddTokensToLock / unlock when no synthetic lock exists: never read by any query",
+	"lockup/0x20-empty-name/value":  "lockup accumulation tree under the empty denomination (see above)",
+	"concentratedliquidity/accum-zero-share-record/only-A": "accumulator position record with zero shares and no unclaimed rewards left behind by a withdrawn position: not exported, not visible to any query",
+	"lockup/0x20/only-A": "lockup accumulation sum-tree nodes: leaves whose amount went back to zero stay in the tree on a running node and are not rebuilt on import; the sums themselves are compared for every denomination and duration by the import-query/lockup/accumulation oracle",
+	"lockup/0x20/value":  "lockup accumulation sum-tree nodes (see lockup/0x20/only-A): inner nodes list zero-amount children",
+	"protorev/0x12/value":  "x/protorev cyclic-arb tracker start height: InitGenesis re-bases a zero start height at the import height (documented under the export oracles)",
+	"protorev/0x11/value":  "x/protorev cyclic-arb tracker (see protorev/0x12)",
+}
+
+// refineRawClass splits two key classes by content: accumulator position records that hold no shares and
+// no unclaimed rewards (left behind by fully withdrawn positions; no query can see them).
+func refineRawClass(store string, key, va, vb []byte) string {
+	if store == "concentratedliquidity" && bytes.HasPrefix(key, []byte("accum||pos||")) && vb == nil {
+		var rec accum.Record
+		if err := proto.Unmarshal(va, &rec); err == nil && (rec.NumShares.IsNil() || rec.NumShares.IsZero()) && len(rec.UnclaimedRewardsTotal) == 0 {
+			return "-zero-share-record"
+		}
+	}
+	return ""
+}
+
+// rawStateSteers lists judged classes whose loss changes how later transactions execute: the fork's suffix
+// is no longer comparable once one of them differs.
+var rawStateSteers = map[string]bool{"valsetpref/osmo/only-A": true, "concentratedliquidity/0x0e/value": true, "concentratedliquidity/0x0e/only-A": true}
+
+// kvDiff compares the raw stores of A and of the replica initialised from A's export after both have
+// executed the first block after the fork: every key that A has and D lacks, or whose value differs, is
+// module state that the export/import round trip lost or altered, unless its class is listed in
+// rawStateAllowed. This is what makes the fork oracle independent of which genesis fields and queries the
+// harness happens to know about.
 func (w *world) kvDiff() {
 	_, names := simnet.DiffStoresNamed(w.A, w.D, 1)
 	for _, n := range names {
 		w.run.Count("info/raw-store-differs-after-import/" + n)
 	}
+	if os.Getenv("VERIF_C19_DEBUG") != "" {
+		for _, l := range simnet.DiffStores(w.A, w.D, 3) {
+			fmt.Fprintf(os.Stderr, "raw-diff seed=%d h=%d %.300s\n", w.run.Plan.Seed, w.h, l)
+		}
+	}
+	w.run.Count("import-raw-state-compared")
+	classes, examples := simnet.DiffStoreClassesEx(w.A, w.D, refineRawClass)
+	for _, c := range classes {
+		if strings.HasSuffix(c, "/only-D") {
+			w.run.Count("info/raw-key-class-only-on-imported-node/" + c)
+			continue
+		}
+		if _, ok := rawStateAllowed[c]; ok {
+			w.run.Count("info/raw-key-class-differs-after-import/allowed/" + c)
+			continue
+		}
+		w.run.Count("info/raw-key-class-differs-after-import/judged/" + c)
+		detail := examples[c]
+		w.report("import-raw-state", c, "height %d: one block after replica D was initialised from A's export the raw module stores differ in key class %s (state lost or altered by the export/import round trip): %.260s", w.h, c, detail)
+		if w.dLive && (rawStateSteers[c] || !w.knownRawClass(c)) {
+			w.dLive = false
+			w.run.Count("info/fork-suffix-not-compared-after-unfaithful-import")
+		}
+	}
+}
+
+// knownRawClass tells whether an open known finding covers the class (the suffix stays comparable then,
+// unless the class steers execution).
+func (w *world) knownRawClass(c string) bool {
+	return simcore.IsKnown("C19", "import-raw-state", c)
 }
 
 // diffExports reports module by module; true when anything differed beyond
